@@ -383,6 +383,7 @@ def i_dec_container(ctx, prog, dec):
 
 def run(ctx):
     prog = load.program('core-full', 'serde-full')
+    c17.access_roles(prog)
     enc = dict((i['self_ty'], i) for i in prog.impls if i['trait'] == 'minicbor::encode::Encode' and i['krate'] == 'minicbor')
     dec = dict((i['self_ty'], i) for i in prog.impls if i['trait'] == 'minicbor::decode::Decode' and i['krate'] == 'minicbor')
     i_enc(ctx, prog, enc)
